@@ -12,7 +12,7 @@ Statement: {p['statement']}
 Quantified over: {p['quantifier']['text']}
 Code it is anchored in (relative to the repository root): {', '.join(p['anchors']['files'])}
 
-WORKSPACE: you have your own scratch git worktree of the repository at {wt} (source under {wt}/src/hiten). Work ONLY there. Never touch /repo or /verif (do not read /verif either). Run Python as `cd {wt} && PYTHONPATH={wt}/src /venv/bin/python ...` so that your worktree's copy of hiten is imported (check `hiten.__file__`). There is no network. `import hiten` takes ~17 s and numba JIT-compiles on first call, so scripts take 20-60 s; be patient and keep scripts small.
+WORKSPACE: you have your own scratch git worktree of the repository at {wt} (source under {wt}/src/hiten). Work ONLY there. Never touch /repo or /verif (do not read /verif either). Run Python as `cd {wt} && PYTHONPATH={wt}/src /venv/bin/python ...` so that your worktree's copy of hiten is imported (check `hiten.__file__`). There is no network. `import hiten` takes ~17 s and numba JIT-compiles on first call, so scripts take 20-60 s; be patient and keep scripts small. The machine is shared: ALWAYS prefix every python/pytest command with `NUMBA_NUM_THREADS=4 OMP_NUM_THREADS=4 OMP_WAIT_POLICY=passive`, and never run more than one pytest process at a time.
 
 WHAT TO PRODUCE, for each change k = 1..{n}, in the directory {out}/k/ (create it):
   1. patch.diff  - `git diff` of your change against the worktree HEAD (apply-able with `git apply`). Keep it small (a few lines), in non-test source files only. Do not edit tests.
